@@ -129,6 +129,7 @@ impl<'a> LTr<'a> {
                 Ok((**inner).clone())
             }
             LTy::Opt(inner) => self.match_opt(m, &scrut, inner, lhs),
+            LTy::Adt(en, _) if !self.lreg.enums.contains_key(en) && self.reg.enums.get(en).map_or(false, |vs| vs.iter().all(|(_, payload)| !payload)) => self.match_unit_enum(m, &scrut, en, lhs),
             LTy::Int(_) => self.match_lit(m, &scrut, lhs),
             LTy::Ext(en) if ext_enum(en).is_some() => {
                 let variants = ext_enum(en).unwrap();
